@@ -160,12 +160,94 @@ fn formed(g: &mut G, n: usize, cfg: &MCfg, renew: u8) -> Sim {
     sim
 }
 
+/// C03, departure of an instance that is momentarily Disconnected while others list it as active:
+/// (a) it announced, the member registered it, and it leaves before the Feed arrives;
+/// (b) its only known peer left gracefully (it went Idle) while a third member still lists it.
+/// The leaver must end defunct and whoever listed it must report it Down within the bound.
+fn leave_while_disconnected(g: &mut G, out: &mut FOut) {
+    let n = 3 + g.below(3) as usize;
+    let mut cfg = cluster_cfg(g, n);
+    cfg.max_packet_size = 1400;
+    let mut sim = Sim::new(n, &cfg, g.next(), 0, false);
+    let variant_a = g.chance(50);
+    let leaver = n - 1;
+    let id = |sim: &mut Sim, j: usize| sim.id_of(j);
+    if variant_a {
+        // nodes 0..n-2 know each other; the last one is fresh
+        for i in 0..n - 1 {
+            let others: Vec<MMember> = (0..n - 1).filter(|j| *j != i).map(|j| MMember { id: VId::new(j as u16 + 1, 0, 0, 0), inc: 0, state: 0 }).collect();
+            sim.now = g.below(1000) as u128 * MS;
+            sim.call(i, Input::ApplyMany(others, false));
+        }
+        sim.now = 0;
+        sim.run_until((2 + g.below(3)) as u128 * P);
+        let seed_node = g.below((n - 1) as u64) as usize;
+        let dst = id(&mut sim, seed_node);
+        sim.call(leaver, Input::Announce(dst));
+        // until the member has registered the joiner (its Feed is then in flight)
+        let mut guard = 0;
+        while guard < 10_000 && !sim.view(seed_node).iter().any(|m| m.id.a as usize == leaver + 1 && m.active()) {
+            if !sim.step(u128::MAX) {
+                break;
+            }
+            guard += 1;
+        }
+    } else {
+        // the leaver knows only node 0; node 0 and the others know everybody; node 0 leaves first
+        for i in 0..n - 1 {
+            let others: Vec<MMember> = (0..n).filter(|j| *j != i).map(|j| MMember { id: VId::new(j as u16 + 1, 0, 0, 0), inc: 0, state: 0 }).collect();
+            sim.now = g.below(1000) as u128 * MS;
+            sim.call(i, Input::ApplyMany(others, false));
+        }
+        sim.now = g.below(1000) as u128 * MS;
+        sim.call(leaver, Input::ApplyMany(vec![MMember { id: VId::new(1, 0, 0, 0), inc: 0, state: 0 }], false));
+        sim.now = 0;
+        // no settling: the leaver must not learn anybody else before node 0 leaves
+        sim.call(0, Input::Leave);
+        let mut guard = 0;
+        while guard < 10_000 && sim.nodes[leaver].inst.snapshot().conn == 1 {
+            if !sim.step(u128::MAX) {
+                break;
+            }
+            guard += 1;
+        }
+    }
+    let conn_before = sim.nodes[leaver].inst.snapshot().conn;
+    let t0 = sim.now;
+    let listed: Vec<bool> = (0..n).map(|i| i != leaver && sim.view(i).iter().any(|m| m.id.a as usize == leaver + 1 && m.active())).collect();
+    sim.call(leaver, Input::Leave);
+    let bound = t0 + (2 * n as u128 + 1) * P + cfg.suspect_to_down_after + 300 * MS;
+    sim.run_until(bound);
+    out.runs += 1;
+    out.distinct.insert(hash_of(&("leave-while-disconnected", n, variant_a, conn_before, format!("{cfg:?}"))));
+    let ctx = format!("n={n} leaver={leaver} variant={} connection state at leave={conn_before} cfg={cfg:?}", if variant_a { "leave-racing-the-feed" } else { "leave-while-idle" });
+    if conn_before != 0 {
+        return; // the race was not produced (the leaver was connected again): the ordinary scenario covers it
+    }
+    if sim.nodes[leaver].inst.snapshot().conn != 2 {
+        out.hit("C03:leaver-not-defunct", J::s(format!("{ctx}: connection state {} at the end", sim.nodes[leaver].inst.snapshot().conn)));
+    }
+    for i in 0..n {
+        if i == leaver || (!variant_a && i == 0) || !listed[i] {
+            continue;
+        }
+        let got = sim.nodes[i].notes.iter().any(|(t, nn)| *t >= t0 && matches!(nn, MNote::Down(x) if x.a as usize == leaver + 1));
+        if !got {
+            out.hit("C03:leaver-not-reported-down-in-time", J::s(format!("{ctx}: node {i} listed the leaver as active and never notified MemberDown by {} ms", bound / MS)));
+        }
+    }
+}
+
 /// C03: crashed or departed members are reported Down everywhere, bounded
 pub fn c03(seed: u64, budget: u64) -> FOut {
     let mut out = FOut::default();
-    out.rule = "formed clusters of n = 2..7 real instances (fault-free settling first), then a non-empty proper subset crashes or leaves gracefully at a random event index; latencies < probe_rtt/4; monitors: every survivor that listed a failed member as active notifies MemberDown for it within (2n+1) probe periods + suspect_to_down_after (+ latency slack), no survivor is declared Down / goes Defunct, a leaver is reported Down at once by the members it told, and after leaving it sends nothing but TurnUndead. distinct = distinct (n, subset, crash|leave, config)".into();
+    out.rule = "formed clusters of n = 2..7 real instances (fault-free settling first), then a non-empty proper subset crashes or leaves gracefully at a random event index; latencies < probe_rtt/4; monitors: every survivor that listed a failed member as active notifies MemberDown for it within (2n+1) probe periods + suspect_to_down_after (+ latency slack), no survivor is declared Down / goes Defunct, a leaver is reported Down at once by the members it told, and after leaving it sends nothing but TurnUndead; one run in five: an instance leaves while momentarily Disconnected (it announced and leaves before the Feed arrives; or its only known peer just left and a third member still lists it) - it must end defunct and be reported Down within the bound by whoever listed it. distinct = distinct (n, subset, crash|leave, config)".into();
     let mut g = G::new(seed ^ 0xC03);
     for _run in 0..budget {
+        if g.chance(20) {
+            leave_while_disconnected(&mut g, &mut out);
+            continue;
+        }
         let n = 2 + g.below(6) as usize;
         let mut cfg = cluster_cfg(&mut g, n);
         cfg.max_packet_size = 1400;
@@ -439,7 +521,7 @@ pub fn c05(seed: u64, budget: u64) -> FOut {
 /// C18: reply cascades terminate
 pub fn c18(seed: u64, budget: u64) -> FOut {
     let mut out = FOut::default();
-    out.rule = "pairs and triples of real instances put into arbitrary mutual-knowledge states (alive / suspect / down / superseded identity; active, idle or defunct themselves) by seeded apply_many / leave / identity changes, renewable or not, notify_down_members on/off; timers frozen; one initial datagram of every kind is injected and all resulting datagrams are delivered (random order) until the network is empty; more than 2000 deliveries = a storm. distinct = distinct (states, initial datagram) pairs".into();
+    out.rule = "pairs and triples of real instances put into arbitrary mutual-knowledge states (alive / suspect / down / superseded identity; active, idle or defunct themselves) by seeded apply_many / leave / identity changes, renewable or not, notify_down_members on/off; timers frozen; one initial datagram of every kind is injected and all resulting datagrams are delivered (random order) until the network is empty; more than 2000 deliveries = a storm; then seeded single-instance histories (300 calls, large member lists, small packets) on which every delivered datagram with k member updates must cause at most (k + 1) * num_indirect_probes + 1 new datagrams. distinct = distinct (states, initial datagram) pairs".into();
     let mut g = G::new(seed ^ 0xC18);
     for _run in 0..budget {
         let n = 2 + g.below(2) as usize;
@@ -512,6 +594,40 @@ pub fn c18(seed: u64, budget: u64) -> FOut {
         }
         if out.samples.len() < 2 {
             out.samples.push(J::s(format!("n={n} renew={renew} initial {msg:?}: {deliveries} deliveries, kinds {:?}", sim.kinds_sent)));
+        }
+    }
+    // the per-delivery bound of theorem C18_delivery_fanout_bound on single-instance histories (large
+    // member lists, small packets, truncated Feeds, refutations): one delivered datagram with k
+    // member updates causes at most (k + 1) * num_indirect_probes + 1 new datagrams
+    for h in 0..(budget / 3).max(3) {
+        let hs = seed.wrapping_mul(7919).wrapping_add(h);
+        let mut hit: Option<J> = None;
+        crate::falsify::history(hs, 300, |_, _| {}, |pre, input, effs, _o, _post, _rep| {
+            if let Input::Data(b) = input {
+                let sends = effs.iter().filter(|e| matches!(e, Eff::Send(..))).count() as u128;
+                let mut k = 0u128;
+                let mut cur = &b[..];
+                if crate::vid::dec_header(&mut cur).is_ok() && cur.len() >= 2 {
+                    let cnt = u16::from_be_bytes([cur[0], cur[1]]);
+                    cur = &cur[2..];
+                    for _ in 0..cnt {
+                        if crate::vid::dec_member(&mut cur).is_err() {
+                            break;
+                        }
+                        k += 1;
+                    }
+                }
+                let bound = (k + 1) * pre.cfg.num_indirect_probes + 1;
+                if sends > bound {
+                    hit = Some(J::s(format!("history seed {hs}: {sends} datagrams sent on one delivery carrying {k} updates (bound {bound}, num_indirect_probes {}): {input:?}", pre.cfg.num_indirect_probes)));
+                    return false;
+                }
+            }
+            true
+        });
+        out.runs += 1;
+        if let Some(d) = hit {
+            out.hit("C18:delivery-fan-out-exceeds-bound", d);
         }
     }
     out
